@@ -180,6 +180,62 @@ const SCRIPT_BODIES: &[&str] = &[
 const STYLE_BODIES: &[&str] = &["body{color:red}", "a>b{c:d} /* </div> */", "p::before{content:'<'}", "", ".x{background:url(a.png)}"];
 const TEXTAREA_BODIES: &[&str] = &["<b>not bold</b>", "plain", "</body>", "a < b", ""];
 
+/// A Unicode scalar outside ASCII.  Half of the time one whose UTF-8 encoding contains a byte that, read as a
+/// Latin-1 `char`, has a special class (white space 0x85 / 0xA0, letters, digits, case pairs), or whose case
+/// mapping changes length; otherwise a uniformly drawn scalar of 2, 3 or 4 bytes.
+pub fn random_scalar(rng: &mut Rng) -> char {
+    const SPECIAL: &[char] = &[
+        '\u{85}', '\u{a0}', '\u{aa}', '\u{b5}', '\u{ba}', '\u{b2}', '\u{bc}', '\u{c0}', '\u{c5}', '\u{d7}', '\u{df}', '\u{e0}', '\u{f7}', '\u{ff}', '\u{100}', '\u{130}', '\u{131}',
+        '\u{17f}', '\u{1c5}', '\u{345}', '\u{3a3}', '\u{3c2}', '\u{5d0}', '\u{1680}', '\u{180e}', '\u{1e9e}', '\u{2000}', '\u{200b}', '\u{2028}', '\u{2029}', '\u{202f}', '\u{205f}',
+        '\u{2126}', '\u{212a}', '\u{3000}', '\u{516c}', '\u{2020}', '\u{fb00}', '\u{feff}', '\u{ff1c}', '\u{ff1e}', '\u{fffd}', '\u{1f600}', '\u{10400}', '\u{e0020}',
+    ];
+    if rng.coin() {
+        return *rng.pick(SPECIAL);
+    }
+    loop {
+        let v = match rng.below(3) {
+            0 => 0x80 + rng.below(0x800 - 0x80) as u32,
+            1 => 0x800 + rng.below(0x1_0000 - 0x800) as u32,
+            _ => 0x1_0000 + rng.below(0x11_0000 - 0x1_0000) as u32,
+        };
+        if let Some(c) = char::from_u32(v) {
+            return c;
+        }
+    }
+}
+
+/// Insert 1-4 non-ASCII scalars at character boundaries, biased towards the inside of tags.
+pub fn sprinkle_unicode(rng: &mut Rng, s: &str) -> String {
+    let mut out = s.to_string();
+    for _ in 0..rng.range(1, 4) {
+        let mut cands: Vec<usize> = Vec::new();
+        if rng.chance(2, 3) {
+            // right after one of these structural bytes
+            for (i, b) in out.bytes().enumerate() {
+                if matches!(b, b'<' | b'=' | b' ' | b'/' | b'"' | b'\'' | b'-' | b'!' | b'a'..=b'z') && rng.chance(1, 4) {
+                    cands.push(i + 1);
+                }
+            }
+        }
+        let pos = if cands.is_empty() {
+            let mut p = rng.below(out.len() + 1);
+            while !out.is_char_boundary(p) {
+                p -= 1;
+            }
+            p
+        } else {
+            let p = cands[rng.below(cands.len())];
+            if out.is_char_boundary(p) {
+                p
+            } else {
+                continue;
+            }
+        };
+        out.insert(pos, random_scalar(rng));
+    }
+    out
+}
+
 fn ws(rng: &mut Rng, o: &GenOpts) -> String {
     if o.whitespace && rng.chance(1, 3) {
         rng.pick_str(&["\n", "  ", "\n    ", "\t", " \n "])
@@ -197,7 +253,13 @@ pub fn gen_text(rng: &mut Rng, o: &GenOpts) -> String {
         }
         let w = rng.below(10);
         if w < 2 && o.multibyte {
-            s.push_str(&rng.pick_str(MB_WORDS));
+            if rng.chance(1, 3) {
+                s.push('a');
+                s.push(random_scalar(rng));
+                s.push('b');
+            } else {
+                s.push_str(&rng.pick_str(MB_WORDS));
+            }
         } else if w < 3 && o.lt_text {
             s.push_str(&rng.pick_str(LT_WORDS));
         } else if w < 4 && o.entities {
@@ -255,8 +317,15 @@ fn gen_attrs(rng: &mut Rng, o: &GenOpts) -> Vec<Attr> {
             } else {
                 rng.pick_str(ATTR_VALUES)
             };
-            if o.multibyte && rng.chance(1, 10) {
-                val.push_str("é");
+            if o.multibyte && rng.chance(1, 6) {
+                if rng.coin() {
+                    val.push_str("é");
+                } else {
+                    val.push(random_scalar(rng));
+                    if rng.coin() {
+                        val.push('z');
+                    }
+                }
             }
             let mut q = [1u8, 1, 1, 2, 0][rng.below(5)];
             if q == 0 && (val.is_empty() || val.contains(' ') || val.contains('&') || val.contains('/') || val.contains('=')) {
